@@ -224,7 +224,7 @@ func (connioView) ExecModel(line string) (out string, oracle string, tags []stri
 	for t := range tagset {
 		tags = append(tags, t)
 	}
-	tags = append(tags, "dom:C19", "dom:C10", sizeTag("max", max))
+	tags = append(tags, "dom:C19", "dom:C10", "dom:C02", sizeTag("max", max))
 	return strings.Join(outs, " | "), strings.Join(fails, " | "), tags, fmt.Sprintf("connio %d | %s", max, strings.Join(c.model, " ; "))
 }
 
